@@ -529,6 +529,9 @@ func main() {
 	for i := 0; i < n; i++ {
 		r := &rng{s: seed*7919 + uint64(i)}
 		sp := genSpec(r, genOpts{Ties: i%5 != 4, MaxDepth: 1 + i%3})
+		if i%8 == 5 {
+			addDeepChain(sp, r, 3+(i/8)%3)
+		}
 		if only >= 0 && i != only {
 			continue
 		}
